@@ -71,6 +71,7 @@ func c03Run(e *Env) {
 	ackTO := 2 * time.Second
 	collisions := t.Chance(1, 2)
 	parks := t.Choose(3)
+	nstart := []uint32{16, 1, 2}[t.Weighted(2, 1, 1)] // NSTART: 1 is the default of the configuration
 	// responses and requests are pooled objects (the default configuration recycles them): what one caller was given
 	// must not be what another one is given
 	if pc := []uint32{0, 2, 1024}[t.Choose(3)]; e.PoolCapacity == 0 && pc > 0 {
@@ -84,7 +85,7 @@ func c03Run(e *Env) {
 		cfg := SimUDPConfig(int32(t.Choose(65536)))
 		cfg.TransmissionAcknowledgeTimeout = ackTO
 		cfg.TransmissionMaxRetransmit = 20 // the few ticks of this scenario never exhaust the attempts (exhaustion is C06's business)
-		cfg.TransmissionNStart = 16
+		cfg.TransmissionNStart = nstart
 		cfg.BlockwiseEnable = bw
 		cfg.LimitClientParallelRequests = limit
 		w = NewCWorld(e, CWorldCfg{Transport: tr, UDP: cfg})
@@ -120,7 +121,7 @@ func c03Run(e *Env) {
 		e.Wait()
 	}
 	w.Pump()
-	e.Logf("cfg transport=%s bw=%v limit=%d callers=%d dup=%d seg=%d collisions=%v parks=%d", tr, bw, limit, nCallers, w.DupW, w.SegW, collisions, parks)
+	e.Logf("cfg transport=%s bw=%v limit=%d nstart=%d callers=%d dup=%d seg=%d collisions=%v parks=%d", tr, bw, limit, nstart, nCallers, w.DupW, w.SegW, collisions, parks)
 
 	var reqs []*c03Req
 	remaining := make([]int, nCallers) // requests left per caller
